@@ -92,22 +92,26 @@ def run_history(base, steps):
     out = []
 
     def impl(fn, push):
+        """creation and collection are separate: a frame that was created but whose collect() raises stays on the heap"""
         try:
             df = fn()
             if df is None:
                 raise NoFrame()
+        except Exception as ex:
+            if push:
+                heap.append(None)
+            return {"err": errname(ex), "msg": str(ex)[:160], "at": "create"}
+        if push:
+            heap.append(df)
+        try:
             r = collect(df)
             try:
                 r["static_cols"] = list(df.columns)
             except Exception as ex:  # noqa
                 r["static_cols"] = ["<" + type(ex).__name__ + ">"]
-            if push:
-                heap.append(df)
             return r
         except Exception as ex:
-            if push:
-                heap.append(None)
-            return {"err": errname(ex), "msg": str(ex)[:160]}
+            return {"err": errname(ex), "msg": str(ex)[:160], "at": "collect"}
 
     ok_or = []   # oracle: which heap tables exist
 
@@ -167,8 +171,11 @@ def run_history(base, steps):
                 right = heap[h2].select(F.col(key), *[F.col(c).alias(c + "_r") for c in rcols])
                 return heap[h1].join(right, on=key, how="inner")
             if hcheck(h1) and hcheck(h2):
+                # PySpark's join(on=key): the key first, then the left frame's other columns, then the right's
+                lcols = [d[0] for d in kon.execute(f"SELECT * FROM h{h1} LIMIT 0").description]
                 rsel = ", ".join([key] + [f"{c} AS {c}_r" for c in rcols])
-                ro = oracle(f"SELECT * FROM h{h1} JOIN (SELECT {rsel} FROM h{h2}) AS r USING ({key})", True)
+                osel = ", ".join([f"l.{key}"] + [f"l.{c}" for c in lcols if c != key] + [f"r.{c}_r" for c in rcols])
+                ro = oracle(f"SELECT {osel} FROM h{h1} AS l JOIN (SELECT {rsel} FROM h{h2}) AS r ON l.{key} = r.{key}", True)
             else:
                 ro = _push_fail(ok_or)
             out.append({"impl": impl(j, True), "oracle": ro})
